@@ -397,9 +397,10 @@ func genMPEG1Video(rng *rand.Rand, sz []int) Frame {
 	} else { // I picture
 		b = append(b, 0, 0, 1, 0, byte(tr>>2), byte(tr<<6)|1<<3|7, 0xff, 0xf8)
 	}
+	oneSlice := len(sz) == 2 && sz[1] == 1 // (n, 1): everything after the picture header is ONE slice
 	for vpos := byte(1); len(b) < n; vpos++ {
 		l := n - len(b) // whole rest, unless two slices of >= 5 bytes fit
-		if l >= 10 && vpos < 0xaf {
+		if l >= 10 && vpos < 0xaf && !oneSlice {
 			l = 5 + rng.Intn(min(l-9, 400))
 		}
 		s := randBytes(rng, l)
